@@ -92,6 +92,8 @@ pub struct Names {
     /// (worker, node) → when its check_cooldown looked at active_writers; node → was it released
     /// from cooldown on the strength of a look that predates that cooldown's start
     chk_at: HashMap<(usize, usize), u64>,
+    /// node -> the thread that holds it in the checking state (between the two exchanges of check_cooldown)
+    checking: HashMap<usize, usize>,
     stale_release: HashMap<usize, bool>,
     /// per worker: the API call it is in, and its last atomic access (for oracle messages)
     cur_api: HashMap<usize, String>,
@@ -308,9 +310,25 @@ fn after_hook(e: &Event, val: usize, ok: bool) {
         }
         // a node that another newcomer holds for its check cannot be claimed either: the same
         // cause of an allocation beyond the peak (a released node exists but is not available)
-        if let Kind::F(_, Field::InUse) = k {
+        // a thread that moves on to anything but the rest of its check has left the check
+        if !site.ends_with("Node::check_cooldown#1") && !site.ends_with("Node::check_cooldown#2") {
+            n.checking.retain(|_, t| *t != w);
+        }
+        if let Kind::F(j, Field::InUse) = k {
+            if site.ends_with("Node::check_cooldown#0") && ok {
+                n.checking.insert(j, w);
+            }
+            if site.ends_with("Node::check_cooldown#2") {
+                n.checking.remove(&j);
+            }
             if site.ends_with("Node::check_cooldown#0") && !ok && val == 3 {
                 n.saw_writer.insert(w, true);
+                if !n.checking.contains_key(&j) {
+                    crate::varc::violation(format!(
+                        "cooldown-protocol: t{} finds node n{} in the checking state although no thread is checking it: the node is lost to reuse",
+                        w, j
+                    ));
+                }
             }
         }
         if let Kind::F(j, Field::Writers) = k {
@@ -1390,6 +1408,7 @@ where
         n.res_since.clear();
         n.released_at.clear();
         n.chk_at.clear();
+        n.checking.clear();
         n.stale_release.clear();
         n.peak_owners = 0;
         n.saw_writer.clear();
